@@ -284,10 +284,16 @@ func panicClass(f simrt.Failure) string {
 }
 
 func deadlockSig(f simrt.Failure) string {
+	// like panics, a self-deadlock carries the innermost repository function: that is where the task asked again
+	// for the lock it holds (flush re-entered through Send is the known one; any other place is a different defect)
+	c := "mutex"
 	if strings.Contains(f.Msg, "Once") {
-		return "once"
+		c = "once"
 	}
-	return "mutex"
+	if fn := topRepoFunc(f.Stack); fn != "" {
+		return c + "/in-" + fn
+	}
+	return c
 }
 
 func trimStack(s string) string {
